@@ -1,4 +1,5 @@
 """C20 — upgraded services keep every setting; antnode accepts what antctl writes (sibling cross-checks)."""
+import re
 import argmodel as A
 import tables as T
 from cfg import cfg_of
@@ -155,14 +156,40 @@ def run(R):
                     R.viol("C20.options", "options-source:%s" % fld, "UpgradeOptions.%s does not derive from the persisted %s (sources: %s)" % (fld, need, sorted(fs)), up, s["l"])
         R.inst("C20.options", "K6 flows-to", "UpgradeOptions.auto_restart ← node.auto_restart; env_variables ← provided or registry.environment_variables", 2, oko)
 
+    # (2a) what is persisted survives the registry file (an upgrade is a new process: it sees only what was saved)
+    from serdepair import serde_agreement
+    serde_agreement(R, "C20.persist.file", [NSD], 6)
     # (2) persisted = installed
     add = R.body("C20.persist", ADD)
     if add is not None:
         prep(add)
+        # the registry-wide environment (what every later upgrade regenerates services with) is replaced only by a supplied one
+        from rules import BlockSink, FieldOptGuard
+        envr = Taint(add).closure({d for d, r, p in field_reads(add, "env_variables")})
+
+        def env_writes(b):
+            out = []
+            for blk in b.blocks:
+                if blk["cleanup"]:
+                    continue
+                for st in blk["stmts"]:
+                    rv = st["rv"]
+                    if rv["k"] == "ref" and rv.get("mut") and ".environment_variables" in rv["p"][1:]:
+                        out.append(blk["id"])
+                    if len(st["d"]) > 1 and ".environment_variables" in st["d"][1:]:
+                        out.append(blk["id"])
+            return out
+        if not env_writes(add):
+            R.viol("C20.env.keep", "anchor-missing:environment_variables-write", "add_node no longer records the supplied environment in the registry", add, add.lines[0])
+        R.gate("C20.env.keep", add, BlockSink(env_writes, "NodeRegistry.environment_variables is overwritten"),
+               [[CallGuard(["core::option::Option::is_some"], ("true",), "options.env_variables is Some", arg_pred=lambda b_, blk, t: op_local(t["args"][0]) in envr),
+                 FieldOptGuard("env_variables", ("Some",))]],
+               descr="add_node replaces the registry-wide environment only when a new one is supplied (services added earlier are regenerated from it on upgrade)")
         bf = _builder_fields(F)
         df = {f["name"] for f in (F.adts.get(NSD) or {"variants": [{"fields": []}]})["variants"][0]["fields"]}
         okp = True
         n = 0
+        roots = []
         for f in bf:
             tgt = FIELD_MAP.get(f, f)
             if f == "env_variables":
@@ -179,12 +206,17 @@ def run(R):
                 R.viol("C20.persist", "literal-field:%s" % f, "add_node does not set %s in both the install context and the registry record" % f, add, add.lines[0])
                 continue
             n += 1
+            roots.append((f, _value_root(add, oi[0][2]), _value_root(add, od[0][2])))
             si = _sources(add, oi[0][2])
             sd = _sources(add, od[0][2])
-            if si != sd:
+            ri, rd = _value_root(add, oi[0][2]), _value_root(add, od[0][2])
+            if ri is not None and rd is not None and ri != rd:
+                okp = False
+                R.viol("C20.persist", "differs-value:%s" % f, "installed `%s` is a copy of %s but the persisted `%s` a copy of %s" % (f, ri, tgt, rd), add, od[0][1]["l"])
+            elif si != sd:
                 okp = False
                 R.viol("C20.persist", "differs:%s" % f, "installed `%s` comes from %s but the persisted `%s` from %s" % (f, sorted(si), tgt, sorted(sd)), add, od[0][1]["l"])
-        R.inst("C20.persist", "K7 table agreement", "every InstallNodeServiceCtxBuilder field is persisted in NodeServiceData from the same source", n, okp)
+        R.inst("C20.persist", "K7 table agreement", "every InstallNodeServiceCtxBuilder field is persisted in NodeServiceData from the same source", n, okp, {"copies_of": roots})
         if n < 18:
             R.viol("C20.persist", "instance-floor", "only %d builder fields compared (floor 18)" % n)
 
@@ -316,6 +348,9 @@ def run(R):
                     R.viol("C20.position." + nm, "peers-after", "peers arguments are emitted after the network subcommand", body, body.lines[0])
             R.inst("C20.position." + nm, "K5 must-follow", "%s: top-level options precede the network subcommand; only its own options follow" % nm, len(m["order"]), okpo)
 
+    network_id_first(R)
+    cache_dir_honoured(R)
+
     # (4) value vocabulary
     asb = R.body("C20.logformat", "ant_logging::LogFormat::as_str")
     psb = R.body("C20.logformat", "ant_logging::LogFormat::parse_from_str")
@@ -353,6 +388,54 @@ def run(R):
 def _builder_fields(F):
     a = F.adts.get(BUILDER)
     return [f["name"] for f in a["variants"][0]["fields"]] if a else []
+
+
+CLONES = ("core::clone::Clone::clone", "alloc::borrow::ToOwned::to_owned", "std::path::Path::to_path_buf", "core::option::Option::cloned", "core::option::Option::as_ref")
+
+
+def _value_root(body, op):
+    """the user variable / field place an operand is a plain copy (move, borrow, clone) of; None when it is computed"""
+    if op[0] == "c":
+        return "const:" + op[1]
+    defs = {}
+    for b in body.blocks:
+        if b["cleanup"]:
+            continue
+        for st in b["stmts"]:
+            if len(st["d"]) == 1:
+                defs.setdefault(st["d"][0], []).append(("s", st["rv"]))
+        t = b["term"]
+        if t["k"] == "call" and len(t.get("d") or []) == 1:
+            defs.setdefault(t["d"][0], []).append(("c", t))
+    names = {v["v"][0]: v["name"] for v in body.vars if isinstance(v["v"], list) and len(v["v"]) == 1}
+    l = op_local(op)
+    place = op[1] if op[0] in ("cp", "mv") else None
+    def stop(l):
+        return "var:%s#%d" % (names[l], l) if l in names else None
+    for _ in range(40):
+        if place is not None and len(place) > 1 and any(e.startswith(".") for e in place[1:]):
+            base = names.get(place[0], "_%d" % place[0])
+            return base + "".join(e for e in place[1:] if e.startswith("."))
+        ds = defs.get(l, [])
+        if len(ds) != 1:
+            return stop(l)
+        k, d = ds[0]
+        if k == "s":
+            if d["k"] == "use" and d["a"][0] in ("cp", "mv"):
+                place = d["a"][1]
+                l = place[0]
+            elif d["k"] == "ref":
+                place = d["p"]
+                l = place[0]
+            else:
+                return stop(l)
+        else:
+            if callee_matches(d, list(CLONES)) and d["args"] and d["args"][0][0] in ("cp", "mv"):
+                place = d["args"][0][1]
+                l = place[0]
+            else:
+                return stop(l)
+    return None
 
 
 def _sources(body, op):
@@ -442,3 +525,104 @@ def custom_network_roundtrip(R, models):
         ok = False
         R.viol("C20.custom", "instance-floor", "only %d evm-custom flag emissions found (floor 6)" % len(rows))
     R.inst("C20.custom", "K7 table agreement", "evm-custom flags: written from the CustomNetwork field the reader stores them into", len(rows), ok, {"rows": rows})
+
+
+VERSION_LAZY = re.compile(r"^<ant_protocol::version::(?!NETWORK_ID\b)[A-Z_]+ as core::ops::deref::Deref>::deref$")
+
+
+def network_id_first(R):
+    """--network-id is interpreted as intended only if it is applied before anything reads the version strings derived from it
+    (they are lazy statics: the first read freezes them)."""
+    from rules import FieldOptGuard
+    F = R.F
+    main = R.body("C20.netid.first", "antnode::main")
+    if main is None:
+        return
+    prep(main)
+    g = cfg_of(main)
+    # bodies that (transitively) read a version lazy
+    readers = {b.npath for b in F.bodies.values() if any(VERSION_LAZY.match(c["ncallee"] or "") for c in b.calls)}
+    readers.discard("ant_protocol::version::set_network_id")
+    callers = F.callers()
+    todo = list(readers)
+    while todo:
+        x = todo.pop()
+        for b, c in callers.get(x, ()):
+            r = F.root_of(b).npath
+            for nm in {b.npath, r}:
+                if nm not in readers and nm != "antnode::main":
+                    readers.add(nm)
+                    todo.append(nm)
+    read_blocks = {}
+    for blk in main.blocks:
+        t = blk["term"]
+        if t["k"] == "call" and not blk["cleanup"]:
+            nc = t.get("ncallee") or ""
+            if VERSION_LAZY.match(nc) or nc in readers:
+                read_blocks[blk["id"]] = nc
+        if not blk["cleanup"]:
+            for st in blk["stmts"]:
+                rv = st["rv"]
+                if rv["k"] == "agg" and rv.get("ak") in ("closure", "coroutine", "coroutine_closure"):
+                    cb = F.body(rv.get("adt"))
+                    if cb is not None and cb.npath in readers:
+                        read_blocks[blk["id"]] = cb.npath
+    sets = [blk["id"] for blk in main.blocks if blk["term"]["k"] == "call" and not blk["cleanup"] and callee_matches(blk["term"], ["ant_protocol::version::set_network_id"])]
+    n, acc, rej = FieldOptGuard("network_id", ("Some",)).edges(main)
+    if not acc:
+        nidr = Taint(main).closure({d for d, r, p in field_reads(main, "network_id")})
+        n, acc, rej = CallGuard(["core::option::Option::is_some"], ("true",), "network_id is Some", arg_pred=lambda b_, blk, t: op_local(t["args"][0]) in nidr).edges(main)
+    ok = bool(sets) and bool(read_blocks)
+    if sets and all(any(g.dominates(sb, rb) for sb in sets) for rb in read_blocks):
+        pass        # applied unconditionally before every reader
+    elif not sets or not acc:
+        ok = False
+        R.viol("C20.netid.first", "anchor-missing:set_network_id", "antnode::main no longer applies opt.network_id through version::set_network_id", main, main.lines[0])
+    else:
+        sw = {a for a, _ in acc}
+        idom_ok = all(any(g.dominates(s_, rb) for s_ in sw) for rb in read_blocks)
+        # on the Some side, the set call comes before any reader
+        some_side = g.reach(tuple(d for _, d in acc), avoid=set(sets))
+        late = [rb for rb in read_blocks if rb in some_side or not any(g.dominates(s_, rb) for s_ in sw)]
+        # the value applied is the option's
+        tn = Taint(main).closure({d for d, r, p in field_reads(main, "network_id")})
+        okv = all(op_local(g.term(sb)["args"][0]) in tn for sb in sets)
+        if late or not idom_ok:
+            ok = False
+            rb = sorted(late)[0]
+            R.viol("C20.netid.first", "read-before-set:%s" % read_blocks[rb].split("::")[-1].replace(" as core", ""), "antnode::main reads the network version strings (%s) on a path that has not yet applied --network-id: the lazily built strings keep the default network" % read_blocks[rb], main, g.term(rb)["l"])
+        if not okv:
+            ok = False
+            R.viol("C20.netid.first", "netid-value", "set_network_id is not called with opt.network_id", main, g.term(sets[0])["l"])
+    R.inst("C20.netid.first", "K5 must-precede", "antnode::main applies --network-id before any (transitive) read of the version strings derived from it", len(read_blocks), ok,
+           {"reading_calls": sorted(set(read_blocks.values()))[:30]})
+    if len(read_blocks) < 2:
+        R.viol("C20.netid.first", "instance-floor", "only %d version-reading calls found in antnode::main (floor 2)" % len(read_blocks))
+
+
+def cache_dir_honoured(R):
+    """--bootstrap-cache-dir (which the manager writes) must decide the cache location of the store the node really uses."""
+    from rules import FieldOptGuard
+    NEW = "ant_bootstrap::cache_store::BootstrapCacheStore::new_from_peers_args"
+    b = R.body("C20.cachedir", NEW)
+    if b is None:
+        return
+    prep(b)
+    g = cfg_of(b)
+    GET = "ant_bootstrap::initial_peers::PeersArgs::get_bootstrap_cache_path"
+    news = {blk["id"] for blk in b.blocks if blk["term"]["k"] == "call" and not blk["cleanup"] and callee_matches(blk["term"], ["ant_bootstrap::cache_store::BootstrapCacheStore::new"])}
+    gets = {blk["id"] for blk in b.blocks if blk["term"]["k"] == "call" and not blk["cleanup"] and callee_matches(blk["term"], [GET])}
+    writes = {blk["id"] for blk in b.blocks if not blk["cleanup"] for st in blk["stmts"] if len(st["d"]) > 1 and ".cache_file_path" in st["d"][1:]}
+    ok = bool(news) and bool(gets) and bool(writes)
+    if not ok:
+        R.viol("C20.cachedir", "anchor-missing:cache-path", "new_from_peers_args no longer reads PeersArgs::get_bootstrap_cache_path into config.cache_file_path before building the store", b, b.lines[0])
+    else:
+        if g.reach((0,), avoid=gets) & news:
+            ok = False
+            R.viol("C20.cachedir", "path-skips-arg", "new_from_peers_args can build the store without consulting --bootstrap-cache-dir (PeersArgs::get_bootstrap_cache_path)", b, b.lines[0],
+                   trace=g.lines(g.path((0,), news, avoid=gets)))
+        n, acc, rej = CallGuard([GET], ("Ok", "Some"), "a cache dir was given").edges(b)
+        if not acc or (g.reach(tuple(d for _, d in acc), avoid=writes) & news):
+            ok = False
+            R.viol("C20.cachedir", "arg-not-applied", "a given --bootstrap-cache-dir does not replace config.cache_file_path before the store is built", b, b.lines[0])
+    R.inst("C20.cachedir", "K5 must-pass", "new_from_peers_args: every path to BootstrapCacheStore::new consults --bootstrap-cache-dir and, when given, stores it in config.cache_file_path", 2, ok)
